@@ -222,14 +222,18 @@ void do_catch (const char *p, unsigned short new_pc_offset) {
       catch_value = const1;
 
       /* if it's too deep or max eval, we can't let them catch it */
+      /* pop_context() clears the error state; keep the mark while the error travels
+       * on, otherwise an enclosing catch() swallows it as an ordinary error */
       if (get_error_state (ES_MAX_EVAL_COST))
         {
           pop_context (&econ);
+          set_error_state (ES_MAX_EVAL_COST);
           error ("*Can't catch eval cost too big error.");
         }
       if (get_error_state (ES_STACK_FULL))
         {
           pop_context (&econ);
+          set_error_state (ES_STACK_FULL);
           error ("*Can't catch too deep recursion error.");
         }
     }
